@@ -54,6 +54,9 @@ def _is_null_return(n):
     return False
 
 
+PRELOAD_C = ['miasm/jitter/vm_mngr_py.c', 'miasm/jitter/vm_mngr.c']
+
+
 def run(ck):
     ck.rule("R1", "host write entry: add_mem_write (same addr/size) and check_invalid_code_blocs on every success path", floor=5)
     ck.rule("R2", "emulated write primitives record width/8 bytes; overlap of a write with a code range sets EXCEPT_CODE_AUTOMOD", floor=6)
